@@ -54,10 +54,10 @@ def zygote(hash_seed):
     return p
 
 
-def ask(hash_seed, history, files=None, versions=None, repeat=None):
+def ask(hash_seed, history, files=None, versions=None, repeat=None, construct_first=False):
     p = zygote(hash_seed)
     p.stdin.write(json.dumps({"history": history, "timeout": 900 if repeat else 120, "files": files or {}, "file_versions": versions or [],
-                              "repeat": repeat or []}) + "\n")
+                              "repeat": repeat or [], "construct_first": bool(construct_first)}) + "\n")
     p.stdin.flush()
     line = p.stdout.readline()
     if not line:
@@ -211,14 +211,17 @@ class C17(object):
         history.append(p_lines)
         history.append(list(p_lines))
         return {"hash_seed": hs[slot], "slot": slot, "history": history, "shapes": shapes, "relation": relation, "deco": deco, "files": files,
-                "file_versions": (versions + [versions[-1]]) if versions else None, "no_ddmin": bool(versions)}
+                "file_versions": (versions + [versions[-1]]) if versions else None, "no_ddmin": bool(versions),
+                "construct_first": rng.chance(0.15)}
 
     def run(self, case):
         res = Result()
         hist = case["history"]
         files = case.get("files") or {}
         versions = case.get("file_versions") or []
-        warm = ask(case["hash_seed"], hist, files, versions, case.get("repeat"))
+        warm = ask(case["hash_seed"], hist, files, versions, case.get("repeat"), case.get("construct_first"))
+        if case.get("construct_first"):
+            res.stats["probe:program_objects_created_before_any_is_processed"] += 1
         if case.get("repeat"):
             res.stats["fault:prior_assembly"] += sum(case["repeat"]) - len(case["repeat"])
             res.stats["probe:marathon_history"] += 1
